@@ -25,6 +25,7 @@ import SarpyModel.Drivers.Loops
 import SarpyModel.Drivers.LoopsChip
 import SarpyModel.Drivers.LoopsSidd
 import SarpyModel.Drivers.LoopsAttach
+import SarpyModel.Drivers.PolyLoops
 import SarpyModel.Drivers.NitfAssembly
 import SarpyModel.Drivers.LifeGen
 import SarpyModel.Drivers.CheckerRules
@@ -66,6 +67,7 @@ def step (line : String) : String :=
   | "loopsc" :: rest => (loopscStep rest).getD "bad-op"
   | "loopss" :: rest => (loopssStep rest).getD "bad-op"
   | "loopsa" :: rest => (loopsaStep rest).getD "bad-op"
+  | "polyl" :: rest => (polylStep rest).getD "bad-op"
   | "nitfasm" :: rest => (nitfasmStep rest).getD "bad-op"
   | "lifegen" :: rest => (lifeGenStep rest).getD "bad-op"
   | "chkspec" :: rest => (chkspecStep rest).getD "bad-op"
